@@ -9,7 +9,7 @@ From Xdis Require Import Base.Prelude Base.LE Model.LoadObs.
 Definition digits := list Z.     (* little-endian base-64 digits, non-empty, each 0..63 *)
 Fixpoint digits_val (ds : digits) : Z := match ds with [] => 0 | d :: r => d + 64 * digits_val r end.
 Definition signed_val (ds : digits) : Z :=
-  let v := digits_val ds in if Z.odd v then - (v / 2) else v / 2.
+  let v := digits_val ds in if v mod 2 =? 1 then - (v / 2) else v / 2.
 Fixpoint enc_digits (ds : digits) : list Z :=
   match ds with [] => [] | [d] => [d] | d :: r => (64 + d) :: enc_digits r end.
 Definition digits_ok (ds : digits) : bool := negb (Nat.eqb (List.length ds) 0) && forallb (fun d => (0 <=? d) && (d <? 64)) ds.
